@@ -281,7 +281,11 @@ def main():
                     try:
                         with warnings.catch_warnings():
                             warnings.simplefilter("ignore")
-                            odir, bld = toasty.tile_fits(fp, out_dir=out, tiling_method=method, override=override, parallel=1)
+                            # the progress flag (as `toasty view` and notebooks pass it) on every other step; it only prints
+                            import contextlib
+                            import io as _io
+                            with contextlib.redirect_stdout(_io.StringIO()), contextlib.redirect_stderr(_io.StringIO()):
+                                odir, bld = toasty.tile_fits(fp, out_dir=out, tiling_method=method, override=override, parallel=1, cli_progress=bool(step % 2))
                     except Exception as e:
                         h.violation(f"crash:tile_fits:{mname}", f"{tag}: tile_fits raised {type(e).__name__}: {e}", input=tag)
                         h.case((tag,))
@@ -299,7 +303,7 @@ def main():
                         diff = {kk: (returned.get(kk), on_disk.get(kk)) for kk in on_disk if on_disk.get(kk) != returned.get(kk)}
                         hk = ["fresh", "reuse", "override", "reuse"][step]
                         h.violation(f"returned:{hk}", f"{tag}: the description returned by tile_fits differs from index_rel.wtml: (returned, on disk) = {diff}",
-                                    input={"workflow": "tile_fits", "method": mname, "history": hist[: step + 1]}, observed=diff)
+                                    input={"workflow": "tile_fits", "method": mname, "history": hist[: step + 1], "cli_progress": bool(step % 2)}, observed=diff)
                     if prev is not None and not override and prev != on_disk:
                         h.violation("reuse:changed", f"{tag}: reusing the directory changed index_rel.wtml", input=tag)
                     prev = on_disk
